@@ -932,6 +932,16 @@ def main():
                     consider(str_case(list(vals), 2 + (n % 2), ftype=ft))
                 if n <= 4:
                     consider(str_case(list(vals), 2, ftype="enum", enum_cats=["zz", "other x", "a", "b", "another one"]))
+        # observations / predictions with a large common offset and a small spread (dyadic, group sizes 4 / 8: every exact
+        # quantity is a float; a one-pass variance cancels catastrophically here)
+        big = 2.0 ** 28
+        yb = [big + v for v in (0.25, 0.75, 0.5, 1.0, 0.0, 0.25, 1.25, 0.5)]
+        zb = [big + v for v in (1.0, 0.25, 0.75, 0.5, 1.5, 0.25, 0.0, 1.25)]
+        consider(dict(y=yb, models=[zb], two_d=False, w=None, feat=None, X=None, pd=None))
+        consider(dict(y=yb, models=[zb], two_d=False, w=None, feat=dict(ftype="str", values=["a", "a", "a", "a", "b", "b", "b", "b"], n_bins=3, method="quantile"),
+                      X=dict(container="polars", others=[[float(i)] for i in range(8)], j=0, by="name"), pd=None))
+        consider(dict(y=yb, models=[zb], two_d=False, w=None, feat=dict(ftype="float", values=[0.0, 0.0, 0.0, 0.0, 1.0, 1.0, 1.0, 1.0], n_bins=2, method="quantile"),
+                      X=dict(container="f64", others=[[float(i)] for i in range(8)], j=0, by="index"), pd=None))
         # numeric features over a small alphabet
         for vals in itertools.product([0.0, 1.0, 2.5, "nan"], repeat=4):
             for m in ("quantile", "uniform", "sturges"):
